@@ -26,6 +26,9 @@ pub struct Scn {
     pub trace: Vec<Timed>,
     /// frames of a clean probe dispatched after the trace (C01 pool part); empty otherwise
     pub probe: Vec<Timed>,
+    /// drive the analyzer's own parallel packet loop (with_config + init_pool + process_with) instead of WorkerPool::dispatch
+    #[serde(default)]
+    pub via_analyzer: bool,
     pub schedules: Vec<u64>,
     /// schedules drawn per scheduler seed
     pub iters: usize,
@@ -99,7 +102,7 @@ fn run_eq(s: &Scn, st: &mut RunStats, check_probe_only: bool) -> Result<(), Viol
     let seq_all = sequential(&s.cfg, &all)?;
     let seq_probe_fresh = if s.probe.is_empty() { vec![] } else { sequential(&s.cfg, &s.probe)? };
     let n = all.len();
-    let plan = Arc::new(ExecPlan { cfg: s.cfg.clone(), dispatchers: vec![all.iter().map(|p| p.frame.clone()).collect()], stats_calls: 0, wait_for: None });
+    let plan = Arc::new(ExecPlan { via_analyzer: s.via_analyzer, cfg: s.cfg.clone(), dispatchers: vec![all.iter().map(|p| p.frame.clone()).collect()], stats_calls: 0, wait_for: None });
     st.evals = 0;
     let mut any = false;
     for seed in &s.schedules {
@@ -119,13 +122,21 @@ fn run_eq(s: &Scn, st: &mut RunStats, check_probe_only: bool) -> Result<(), Viol
                 return Err(Violation::new("unexpected-drop", kind.name(), format!("{} dispatches returned Dropped although every queue can hold the whole trace ({} frames, queue {})", dropped - unhashable, n, s.cfg.queue)));
             }
         }
+        if s.via_analyzer {
+            st.probe("driven_through_process_parallel");
+        }
         if check_probe_only {
             // C01 pool part: after arbitrary faulty traffic the workers are alive and treat the probe like a fresh analyzer
             let probe_src: Vec<String> = seq_probe_fresh.iter().flatten().map(|o| o.src.clone()).collect();
             let got_probe: Vec<Vec<Obs>> = out.results.iter().filter(|r| r.iter().any(|o| probe_src.contains(&o.src))).cloned().collect();
             compare(kind, &seq_probe_fresh, &got_probe, "probe after faulty traffic")?;
         } else {
-            compare(kind, &seq_all, &out.results, "trace")?;
+            compare(kind, &seq_all, &out.results, if s.via_analyzer { "trace via process_parallel" } else { "trace" }).map_err(|mut v| {
+                if s.via_analyzer {
+                    v.key = format!("via-process_parallel:{}", v.key);
+                }
+                v
+            })?;
         }
         any |= out.results.iter().any(|r| !r.is_empty());
       }
@@ -255,7 +266,8 @@ impl Prop for C10 {
         let trace = gen_trace(r, kind, n, true);
         let cfg = gen_cfg(r, kind, trace.len());
         let n_sched = tier.pick(2, 10);
-        Scn { cfg, trace, probe: vec![], schedules: (0..n_sched).map(|_| r.next_u64()).collect(), iters: tier.pick(8, 20), sched: if tier == Tier::Thorough && r.chance(1, 4) { Sched::Pct(r.urange(2, 3)) } else { Sched::Random } }
+        let via = r.chance(1, 4);
+        Scn { cfg, trace, probe: vec![], via_analyzer: via, schedules: (0..n_sched).map(|_| r.next_u64()).collect(), iters: tier.pick(8, 20), sched: if tier == Tier::Thorough && r.chance(1, 4) { Sched::Pct(r.urange(2, 3)) } else { Sched::Random } }
     }
 
     fn run(s: &Scn, st: &mut RunStats) -> Result<(), Violation> {
@@ -294,7 +306,7 @@ impl Prop for C08Pool {
         cfg.workers = *r.pick(&[1usize, 2, 3, 4, 8]);
         cfg.batch = *r.pick(&[1usize, 2, 4, 32]);
         let n_sched = tier.pick(2, 8);
-        Scn { cfg, trace, probe: vec![], schedules: (0..n_sched).map(|_| r.next_u64()).collect(), iters: tier.pick(6, 12), sched: Sched::Random }
+        Scn { cfg, trace, probe: vec![], via_analyzer: false, schedules: (0..n_sched).map(|_| r.next_u64()).collect(), iters: tier.pick(6, 12), sched: Sched::Random }
     }
 
     fn run(s: &Scn, st: &mut RunStats) -> Result<(), Violation> {
@@ -355,7 +367,7 @@ impl Prop for C01Pool {
         let mut cfg = gen_cfg(r, kind, trace.len() + probe.len());
         cfg.workers = *r.pick(&[1usize, 2, 3, 4]);
         let n_sched = tier.pick(2, 6);
-        Scn { cfg, trace, probe, schedules: (0..n_sched).map(|_| r.next_u64()).collect(), iters: tier.pick(4, 10), sched: Sched::Random }
+        Scn { cfg, trace, probe, via_analyzer: false, schedules: (0..n_sched).map(|_| r.next_u64()).collect(), iters: tier.pick(4, 10), sched: Sched::Random }
     }
 
     fn run(s: &Scn, st: &mut RunStats) -> Result<(), Violation> {
